@@ -33,8 +33,12 @@ def main():
     ap.add_argument("--no-confirm", action="store_true")
     ap.add_argument("--keep-as", default="")
     ap.add_argument("--needs", default="")
+    ap.add_argument("--refresh", default="", help="ID under /verif/seeded: re-run only the checks against the kept patch and update its meta.json")
     ap.add_argument("--scratch", action="store_true", help="run the checks on a scratch copy (TCHK_REPO) instead of applying the patch to /repo (used while /repo is busy)")
     a = ap.parse_args()
+    if a.refresh:
+        a.seed = os.path.join(ROOT, "seeded", a.refresh)
+        a.no_confirm = True
     patch = os.path.join(a.seed, "patch.diff")
     demos = sorted(glob.glob(os.path.join(a.seed, "*_test.go")))
     meta = {"property": a.prop, "source": "independent sub-agent given only the property text", "ran": []}
@@ -133,6 +137,14 @@ def main():
     finally:
         sh(["git", "-C", "/repo", "checkout", "--", "."])
         shutil.rmtree(os.path.join(ROOT, "evidence", "violations"), ignore_errors=True)
+    if a.refresh:
+        mp = os.path.join(a.seed, "meta.json")
+        meta = json.load(open(mp))
+        meta["checks_fired"] = fired
+        meta["detected_by_own_property"] = a.prop in fired and fired[a.prop]["exit"] == 1
+        json.dump(meta, open(mp, "w"), indent=1)
+        print("refreshed", a.refresh, sorted(fired), "own:", meta["detected_by_own_property"])
+        return
     meta["checks_fired"] = fired
     meta["detected_by_own_property"] = a.prop in fired and fired[a.prop]["exit"] == 1
     print("checks fired:", json.dumps(fired, indent=1))
